@@ -12,9 +12,9 @@
    the code passed), of every `openssl` command, of the flush and handshake on the client side.
    Definitions only; the proofs are in InterceptFacts.v.
 
-   The model describes the tree WITH proposed_fixes/C11-ip-literal-hosts.diff applied
-   (IP literals get an `IP:` subjectAltName, brackets of IPv6 literals are stripped for
-   SNI / hostname checking). *)
+   The model describes the tree after the fix commit 28fb598 (proposed_fixes/C11-ip-literal-hosts.diff):
+   IP literals get an `IP:` subjectAltName, brackets of IPv6 literals are stripped for
+   SNI / hostname checking. *)
 From PM Require Import Lib.Bytes Lib.PyStr.
 
 (* ------------------------------------------------------------------ exceptions *)
